@@ -448,6 +448,10 @@ def call_method(ip, st, recv, name, args, kwargs):
         if st.branch(bad):
             _raise(UnicodeEncodeError, "surrogates not allowed")
         return enc_t
+    if getattr(recv, "is_text", False) and name == "upper" and recv.kind == "str" and not args:
+        from .text import upper_of_char_text
+
+        return upper_of_char_text(st, recv)
     if getattr(recv, "is_text", False) and name == "decode":
         # assumed contract on bytes.decode('utf-8'): raises UnicodeDecodeError on ill-formed input; otherwise
         # yields the characters successive decode steps yield (so the total width is the column difference)
